@@ -1,6 +1,7 @@
 """C04 -- every valid Jelly stream decodes to exactly the statements it encodes."""
 from __future__ import annotations
 
+import json
 from concurrent.futures import ThreadPoolExecutor
 
 from .. import env, impl, producer, report, terms, tlc
@@ -172,6 +173,43 @@ def main(tier: str) -> int:
                     parses += compare_rdflib(run, dict(key, integ="rdflib-on-generic-stream"), rp, den, frames, data, delimited) if False else 0
                 else:
                     parses += compare_rdflib(run, key, rp, den, frames, data, delimited)
+            if bi == 0 and integ == "generic" and name.startswith("small") and den:
+                # the same behaviour with one lexical form blown up to 1.5 MiB (the denotation follows: lexical forms pass through unchanged),
+                # an extra frame cut after the first statement row so that the large frame is NOT the last one
+                big = "B" * 1_572_000
+                rows2, done = [], False
+                for r_ in beh["rows"]:
+                    r2 = json.loads(json.dumps(r_))
+                    for sl in "spo":
+                        if isinstance(r2.get(sl), dict) and r2[sl].get("t") == "lit" and not done:
+                            r2[sl]["lex"] = big
+                            done = True
+                            marked = True
+                    rows2.append(r2)
+                    if done and r2["r"] in ("triple", "quad") and not any(x.get("r") == "cut!" for x in rows2):
+                        rows2.append({"r": "cut!"})
+                if done:
+                    rows2 = [({"r": "cut"} if x.get("r") == "cut!" else x) for x in rows2]
+                    den2, first = [], True
+                    for d_ in beh["den"]:
+                        d2 = json.loads(json.dumps(d_))
+                        den2.append(d2)
+                    # recompute the denotation's literal: find the first item whose wire row carried the first literal
+                    k = 0
+                    for r_ in rows2:
+                        if r_["r"] in ("triple", "quad", "ns"):
+                            if any(isinstance(r_.get(sl), dict) and r_[sl].get("lex") == big for sl in "spo"):
+                                for sl in "spo":
+                                    if isinstance(r_.get(sl), dict) and r_[sl].get("lex") == big:
+                                        den2[k][sl]["lex"] = big
+                                break
+                            k += 1
+                    frames2 = producer.frames_of(rows2)
+                    data2 = producer.to_bytes(frames2, True)
+                    streams += 1
+                    parses += compare_generic(run, {"config": name + "+frame>1MiB", "integ": "generic", "delimited": True},
+                                              {"rows": "as the first behaviour, one lexical form of 1.5 MiB", "hex": data2[:200].hex()},
+                                              [producer.den_item(d) for d in den2], frames2, data2, True)
             if len(samples) < 3 and den:
                 samples.append({"config": name, "rows": beh["rows"][:6], "denotes_first": beh["den"][:1]})
     return run.finish({
